@@ -118,6 +118,34 @@ Proof.
 Qed.
 End Dispatch.
 
+(** ** Integrands defined through an integral: Integrate is re-entered while it evaluates its integrand, with any
+    method name and method_parameter at either level.  With exact back ends the result is the integral of
+    x |-> outer x (integral of inner x between lo x and hi x). *)
+Lemma reentrant_integrand_exact I mi q (outer inner : R -> R -> R) (lo hi : R -> R) :
+  is_nested_method mi = true ->
+  (forall g lo hi, lo < hi -> ex_RInt g lo hi -> selected I mi q (okf g) lo hi = Ok (RInt g lo hi)) ->
+  (forall x, ex_RInt (inner x) (lo x) (hi x)) ->
+  reentrant_integrand ROps I mi q outer inner lo hi = okf (fun x => outer x (RInt (inner x) (lo x) (hi x))).
+Proof.
+  intros Hmi Hsi Hin. apply functional_extensionality; intros x. unfold okf, reentrant_integrand.
+  change (fun t : R => Ok (inner x t)) with (okf (inner x)).
+  rewrite (named_exact I mi q Hmi Hsi (inner x) (lo x) (hi x) (Hin x)). reflexivity.
+Qed.
+
+Lemma reentrant_exact I m p mi q (outer inner : R -> R -> R) (lo hi : R -> R) a b :
+  is_nested_method m = true -> is_nested_method mi = true ->
+  (forall g lo hi, lo < hi -> ex_RInt g lo hi -> selected I m p (okf g) lo hi = Ok (RInt g lo hi)) ->
+  (forall g lo hi, lo < hi -> ex_RInt g lo hi -> selected I mi q (okf g) lo hi = Ok (RInt g lo hi)) ->
+  (forall x, ex_RInt (inner x) (lo x) (hi x)) ->
+  ex_RInt (fun x => outer x (RInt (inner x) (lo x) (hi x))) a b ->
+  integrate_reentrant ROps I m p mi q outer inner lo hi a b
+  = Ok (RInt (fun x => outer x (RInt (inner x) (lo x) (hi x))) a b).
+Proof.
+  intros Hm Hmi Hs Hsi Hin Hout. unfold integrate_reentrant.
+  rewrite (reentrant_integrand_exact I mi q outer inner lo hi Hmi Hsi Hin).
+  apply (named_exact I m p Hm Hs). assumption.
+Qed.
+
 (** ** Nesting: each argument position carries the variable of its own limits *)
 Lemma nest_2d_exact J (f : R -> R -> R) x1 x2 y1 y2 :
   exact_on_integrable J ->
@@ -357,6 +385,30 @@ Proof.
   { apply (@ex_RInt_continuous R_CompleteNormedModule). intros z _. apply (@ex_derive_continuous R_AbsRing R_NormedModule). auto_derive; auto. }
   destruct (separable_2d (fun x => exp (- x)) (fun y => cos (2 * y)) 0 1 3 2 Hg Hh) as (A & B & C).
   rewrite <- C. apply integrate_2d_exact; try assumption; try reflexivity.
+Qed.
+
+(** non-vacuity of [reentrant_exact]: exp(-x) written as 1 - int_0^x exp(-t) dt, outer Gauss-Kronrod on reversed limits,
+    inner Tanh-Sinh with another parameter *)
+Lemma RInt_exp_neg x : is_RInt (fun t => exp (- t)) 0 x (1 - exp (- x)).
+Proof.
+  evar_last.
+  - apply (is_RInt_derive (fun t => - exp (- t)) (fun t => exp (- t))).
+    + intros t _. auto_derive; auto. ring.
+    + intros t _. apply (@ex_derive_continuous R_AbsRing R_NormedModule). auto_derive; auto.
+  - cbn. rewrite Ropp_0, exp_0. unfold minus, plus, opp; cbn. ring.
+Qed.
+
+Example example_reentrant :
+  integrate_reentrant ROps I_ideal M_GaussKronrod 0 M_TanhSinh 7 (fun x i => 1 - i) (fun x t => exp (- t)) (fun _ => 0) (fun x => x) 2 0
+  = Ok (RInt (fun x => exp (- x)) 2 0).
+Proof.
+  etransitivity.
+  - apply reentrant_exact; try reflexivity.
+    + intros x. exists (1 - exp (- x)). apply RInt_exp_neg.
+    + apply ex_RInt_ext with (f := fun x => exp (- x)).
+      * intros x _. rewrite (is_RInt_unique _ _ _ _ (RInt_exp_neg x)). lra.
+      * apply (@ex_RInt_continuous R_CompleteNormedModule). intros z _. apply (@ex_derive_continuous R_AbsRing R_NormedModule). auto_derive; auto.
+  - f_equal. apply RInt_ext. intros x _. rewrite (is_RInt_unique _ _ _ _ (RInt_exp_neg x)). lra.
 Qed.
 
 (** ** The dispatch table, spelled out *)
